@@ -14,6 +14,7 @@ import (
 	"fmt"
 	"io"
 	"os"
+	"os/exec"
 	"path/filepath"
 	"strconv"
 	"strings"
@@ -42,6 +43,8 @@ type C10Case struct {
 	// configuration is built once; then the file is replaced by the key under
 	// test and the package is built again (in the same process).
 	Rotate bool `json:"rotate,omitempty"`
+	// SDE: SOURCE_DATE_EPOCH set in the environment while signing
+	SDE string `json:"source_date_epoch,omitempty"`
 }
 
 type c10Key struct {
@@ -68,6 +71,8 @@ var c10Keys = map[string]c10Key{
 	"keyid-invalid":    {file: "privkey_unprotected.asc", pub: "pubkey", keyID: "xyz", wantFail: true},
 	"key-missing":      {file: "no-such-key.asc", pub: "pubkey", wantFail: true},
 	"second":           {file: "second_priv.asc", pub: "second_pub"},
+	"keyid-decimal":    {file: "decimal_priv.asc", pub: "decimal_pub", keyID: "4399095419976992"},
+	"decimal-no-keyid": {file: "decimal_priv.asc", pub: "decimal_pub"},
 	"pkcs1":            {file: "rsa_unprotected.priv", pub: "rsa_unprotected.pub", apk: true},
 	"pkcs8":            {file: "rsa_pkcs8.priv", pub: "rsa_pkcs8.pub", apk: true},
 	"pkcs8-4096":       {file: "rsa4096.priv", pub: "rsa4096.pub", apk: true},
@@ -77,7 +82,7 @@ var c10Keys = map[string]c10Key{
 	"pem-garbage":      {file: "wrong_key_format.priv", pub: "rsa.pub", apk: true, wantFail: true},
 }
 
-var c10PGPKeys = []string{"armored", "binary", "protected", "protected-binary", "subkey-only", "keyid-primary", "keyid-subkey", "wrong-passphrase", "no-passphrase", "multiple-keys", "keyid-invalid", "key-missing"}
+var c10PGPKeys = []string{"keyid-decimal", "decimal-no-keyid", "armored", "binary", "protected", "protected-binary", "subkey-only", "keyid-primary", "keyid-subkey", "wrong-passphrase", "no-passphrase", "multiple-keys", "keyid-invalid", "key-missing"}
 var c10APKKeys = []string{"pkcs1", "pkcs8", "pkcs8-4096", "encrypted-pem", "encrypted-pem-general", "encrypted-pem-wrong", "pem-garbage"}
 
 func c10Payload(i int) []model.Entry {
@@ -138,6 +143,14 @@ func init() {
 			for _, k := range c10APKKeys {
 				for pl := 0; pl < 4; pl++ {
 					if !yield(C10Case{Format: "apk", Method: "apk", Key: k, Payload: pl, Via: "file", FailJ: -1}) {
+						return
+					}
+				}
+			}
+			// SOURCE_DATE_EPOCH in the environment (before the keys were created / recent)
+			for _, sde := range []string{"315532800", "1700000000"} {
+				for _, m := range []struct{ f, m, k string }{{"deb", "debsign", "armored"}, {"deb", "dpkg-sig", "armored"}, {"rpm", "rpm", "armored"}, {"deb", "debsign", "second"}, {"rpm", "rpm", "decimal-no-keyid"}, {"apk", "apk", "pkcs1"}} {
+					if !yield(C10Case{Format: m.f, Method: m.m, Key: m.k, Payload: 1, Via: "file", FailJ: -1, SDE: sde}) {
 						return
 					}
 				}
@@ -254,7 +267,7 @@ func verifyDetached(env *engine.Env, data, sig []byte) (signerKeyID string, err 
 	if gpgv := env.Tool("gpgv"); gpgv != "" {
 		dp, rm1 := tmpFile(env, "c10.data", data)
 		sp, rm2 := tmpFile(env, "c10.sig", sig)
-		_, gerr := runTool(gpgv, nil, "--keyring", keyPath(env, c10PubName+".gpg"), sp, dp)
+		gerr := gpgvGood(gpgv, "--keyring", keyPath(env, c10PubName+".gpg"), sp, dp)
 		rm1()
 		rm2()
 		if (gerr == nil) != (err == nil) {
@@ -262,6 +275,23 @@ func verifyDetached(env *engine.Env, data, sig []byte) (signerKeyID string, err 
 		}
 	}
 	return "", err, ""
+}
+
+// gpgvGood runs gpgv and goes by its verdict line. GnuPG 2.2 exits non-zero after a
+// "Good signature" when an armor block has neither '=' padding nor a checksum line
+// (it reads on into the END line) - go-crypto writes such armor for a third of all
+// signature lengths; that is an armor-parsing quirk of gpg, not a bad signature.
+func gpgvGood(gpgv string, args ...string) error {
+	cmd := exec.Command(gpgv, args...)
+	cmd.Env = append(os.Environ(), "LC_ALL=C", "GNUPGHOME="+gnupgHome())
+	out, err := cmd.CombinedOutput()
+	if strings.Contains(string(out), "Good signature") && !strings.Contains(string(out), "BAD signature") {
+		return nil
+	}
+	if err == nil {
+		err = errors.New("no good signature")
+	}
+	return fmt.Errorf("%v: %s", err, strings.TrimSpace(string(out)))
 }
 
 func sigIssuer(sig []byte) string {
@@ -292,7 +322,7 @@ func checkC10(env *engine.Env, ci any) engine.Outcome {
 	key := c10Keys[c.Key]
 	viol := func(sig, format string, a ...any) {
 		out.Violations = append(out.Violations, engine.Violation{Sig: sig,
-			Detail: fmt.Sprintf("format=%s method=%s key=%s payload=%d compression=%q via=%s type=%q fail_j=%d key-file-replaced-before-build=%v\n", f, c.Method, c.Key, c.Payload, c.Comp, c.Via, c.SigType, c.FailJ, c.Rotate) + fmt.Sprintf(format, a...)})
+			Detail: fmt.Sprintf("format=%s method=%s key=%s payload=%d compression=%q via=%s type=%q fail_j=%d key-file-replaced-before-build=%v SOURCE_DATE_EPOCH=%q\n", f, c.Method, c.Key, c.Payload, c.Comp, c.Via, c.SigType, c.FailJ, c.Rotate, c.SDE) + fmt.Sprintf(format, a...)})
 	}
 	set := Setting{Name: "default"}
 	if f == "deb" {
@@ -307,8 +337,13 @@ func checkC10(env *engine.Env, ci any) engine.Outcome {
 	}
 	sigm := map[string]any{}
 	c10PubName = "pubkey"
-	if key.pub == "second_pub" {
-		c10PubName = "second_pub"
+	if key.pub == "second_pub" || key.pub == "decimal_pub" {
+		c10PubName = key.pub
+	}
+	if c.SDE != "" {
+		// the signature must not depend on SOURCE_DATE_EPOCH in a way that breaks it (e.g. a date before the key existed)
+		os.Setenv("SOURCE_DATE_EPOCH", c.SDE)
+		defer os.Unsetenv("SOURCE_DATE_EPOCH")
 	}
 	rotPath := filepath.Join(env.Scratch, "rotating-key")
 	if c.Via == "file" && c.Rotate {
@@ -421,7 +456,7 @@ func checkC10(env *engine.Env, ci any) engine.Outcome {
 	if c.Via == "signfn" && c.FailJ >= 0 {
 		expectFail = true
 	}
-	out.Key = fmt.Sprintf("%s:%s:%s:%d:%s:%s:%s:%d:%v:err=%v", f, c.Method, c.Key, c.Payload, c.Comp, c.Via, c.SigType, c.FailJ, c.Rotate, perr != nil)
+	out.Key = fmt.Sprintf("%s:%s:%s:%d:%s:%s:%s:%d:%v:%s:err=%v", f, c.Method, c.Key, c.Payload, c.Comp, c.Via, c.SigType, c.FailJ, c.Rotate, c.SDE, perr != nil)
 	if expectFail {
 		why := "signing cannot succeed"
 		if perr == nil {
@@ -497,15 +532,17 @@ func checkC10(env *engine.Env, ci any) engine.Outcome {
 			return out
 		}
 		kr, _ := pubKeyring(env)
-		if _, verr := block.VerifySignature(kr, nil); verr != nil {
+		_, verr := block.VerifySignature(kr, nil)
+		if verr != nil {
 			viol("sig:does-not-verify:dpkg-sig", "the clear-signed manifest does not verify: %v", verr)
 		}
-		if gpgv := env.Tool("gpgv"); gpgv != "" {
+		// second opinion (only for signatures nfpm made itself; a callback's signature is the harness's own)
+		if gpgv := env.Tool("gpgv"); gpgv != "" && c.Via == "file" {
 			sp, rm := tmpFile(env, "c10.clearsig", pkg.SigBlob)
-			_, gerr := runTool(gpgv, nil, "--keyring", keyPath(env, c10PubName+".gpg"), sp)
+			gerr := gpgvGood(gpgv, "--keyring", keyPath(env, c10PubName+".gpg"), sp)
 			rm()
-			if gerr != nil {
-				viol("sig:gpgv-rejects:dpkg-sig", "gpgv rejects the clear-signed manifest: %v", gerr)
+			if (gerr == nil) != (verr == nil) {
+				return harness(fmt.Sprintf("go-crypto (%v) and gpgv (%v) disagree on the clear-signed manifest", verr, gerr))
 			}
 		}
 		// manifest lines vs stored members
